@@ -247,9 +247,34 @@ pub fn run(r: &Runner) {
             buf[pos] = val;
             check(r, ctx, l, &scanner_rec(backend, class, *cell, buf, 0, Placement::End))
         });
+        // long buffers (unrolled multi-block loops): every length 101..=300 (quick: step 3 plus
+        // all multiples of 16 +-1) × every position × 40 boundary values × 2 fillers
+        let long_lens: Vec<usize> = (101..=300usize).filter(|l| !r.quick() || l % 3 == 0 || l % 16 <= 1 || l % 16 == 15).collect();
+        const BV: [u8; 40] = [0x00, 0x01, 0x08, 0x09, 0x0a, 0x0b, 0x0c, 0x0d, 0x0e, 0x10, 0x1f, 0x20, 0x21, 0x22, 0x28, 0x29, 0x2c, 0x2f, 0x3a, 0x3b, 0x3c, 0x3d, 0x3e, 0x3f, 0x40, 0x5b, 0x5c, 0x5d, 0x7b, 0x7d, 0x7e, 0x7f, 0x80, 0x81, 0x9f, 0xa0, 0xc3, 0xe2, 0xfe, 0xff];
+        let mut lo2 = vec![0u64];
+        for &len in &long_lens {
+            lo2.push(lo2.last().unwrap() + len as u64);
+        }
+        let total = *lo2.last().unwrap() * BV.len() as u64 * 2 * pcombos.len() as u64;
+        r.par_enum(&format!("{}: {} lengths in 101..=300 × every position × 40 boundary values × 2 fillers (boundary-mix, random in-class), end-abutting", label, long_lens.len()), total, |ctx, l, idx| {
+            let mut x = idx;
+            let fk = 1 + x % 2;
+            x /= 2;
+            let val = BV[(x % BV.len() as u64) as usize];
+            x /= BV.len() as u64;
+            let (backend, class) = pcombos[(x % pcombos.len() as u64) as usize];
+            x /= pcombos.len() as u64;
+            let li = lo2.partition_point(|&o| o <= x) - 1;
+            let len = long_lens[li];
+            let pos = (x - lo2[li]) as usize;
+            let mut rng = Lcg(mix(idx));
+            let mut buf: Vec<u8> = (0..len).map(|i| filler(class, fk, i, &mut rng)).collect();
+            buf[pos] = val;
+            check(r, ctx, l, &scanner_rec(backend, class, *cell, buf, 0, Placement::End))
+        });
         // all-in-class buffers of every length (stop at end of buffer), all 64 interior
         // offsets + start-abutting + end-abutting
-        r.par_enum(&format!("{}: all-in-class buffers of every length 0..=200 × 66 placements × 3 fillers", label), 201 * 66 * 3 * pcombos.len() as u64, |ctx, l, idx| {
+        r.par_enum(&format!("{}: all-in-class buffers of every length 0..=400 × 66 placements × 3 fillers", label), 401 * 66 * 3 * pcombos.len() as u64, |ctx, l, idx| {
             let mut x = idx;
             let fk = x % 3;
             x /= 3;
@@ -287,7 +312,7 @@ pub fn run(r: &Runner) {
             check(r, ctx, l, &scanner_rec(backend, class, *cell, buf, 0, Placement::Interior(al)))
         });
         // pairs of offending positions (first-of-several selection) and non-zero start cursor
-        let plen: usize = if r.quick() { 72 } else { 100 };
+        let plen: usize = if r.quick() { 136 } else { 200 };
         let npairs = (plen * (plen - 1) / 2) as u64;
         r.par_enum(&format!("{}: every pair of offending positions in a {}-byte buffer × 4 byte pairs × 3 start cursors", label, plen), npairs * 4 * 3 * pcombos.len() as u64, |ctx, l, idx| {
             let mut x = idx;
